@@ -20,6 +20,7 @@ Every theorem takes the configuration `c` (facts extracted from db.go / db_write
 decidable hypothesis about it first.
 -/
 import NoKVModel.Queue.Reject
+import NoKVModel.Queue.Readable
 import NoKVModel.Queue.AllCfg
 
 namespace NoKV.Props.C34
@@ -43,9 +44,47 @@ theorem C34_rejected_no_effect (c : AllCfg) (_hc : c.q.Struct) (p : Params) (s s
       t ∉ s.queue ++ s.batch ++ s.applied :=
   rejected_step c.q p s s' a (inv_reachable h).1 hs t r hev hr
 
-/-- **Partial (as-is tree).**  Without the two repairs the statement still holds for every
-history in which `Close` has not been called yet.  Missing: calls that overlap or follow
-`Close` (see the two `…_fails_asis…` theorems). -/
+/-- **An acknowledged write is readable afterwards** (any configuration).  The worker applies
+request `t` (a `Set`/`Del` of key `k`) in `s`; whatever every thread does afterwards — further
+calls, enqueues, batches, acknowledgements, `Close`, throttle toggles, in any interleaving — as
+long as the worker applies no other request of key `k`, a read of `k` returns the written
+value (`notfound` after a delete).  Together with `C34_lin_between_enqueue_and_ack` (the ack
+comes after this step) this is "every acknowledged write is readable until overwritten". -/
+theorem C34_applied_write_readable (c : AllCfg) (_hc : c.q.Struct) (p : Params) (s s1 s2 : St)
+    (t : Nat) (b : List Nat) (cl : Client) (acts : List Act)
+    (hb : s.batch = t :: b) (hcl : s.clients[t]? = some cl) (hw : cl.op.isWrite = true)
+    (hs : step c.q p s .wapply = some s1)
+    (hrun : runAvoiding c.q p cl.op.key s1 acts = some s2) :
+    Store.read s2.store cl.op.key = writtenValue cl.op := by
+  rw [runAvoiding_read c.q p cl.op.key acts s1 s2 hrun, wapply_store c.q p s s1 t b cl hb hcl hs]
+  exact applyOp_written s.store cl.op hw
+
+/-- **The linearization point lies between enqueue and acknowledgement** (any configuration):
+in every reachable state a request that is still queued or batched has not taken effect and is
+not acknowledged; a request that is applied but not yet acknowledged has taken effect (exactly
+once: the request ids in queue ++ batch ++ applied are pairwise distinct); an acknowledged
+client has taken effect. -/
+theorem C34_lin_between_enqueue_and_ack (c : AllCfg) (_hc : c.q.Struct) (p : Params) (s : St)
+    (h : Reachable c.q p s) (t : Nat) (cl : Client) (hcl : s.clients[t]? = some cl) :
+    (t ∈ s.queue ++ s.batch → cl.lin = none ∧ cl.acked = false) ∧
+    (t ∈ s.applied → cl.lin = some .ok ∧ cl.acked = false) ∧
+    (cl.acked = true → cl.lin = some .ok) ∧
+    (s.queue ++ s.batch ++ s.applied).Nodup := by
+  obtain ⟨ia, _⟩ := inv_reachable h
+  exact ⟨fun hm => (ia.qb t cl hcl hm).2, fun hm => (ia.ap t cl hcl hm).2, ia.al t cl hcl, ia.nd⟩
+
+/-
+Full-strength statement the property demands (it is `C34_linearizable` above, proved for the
+configuration extracted from the current tree): for EVERY reachable state of EVERY schedule the
+annotated history is accepted by the atomic register object.
+`C34_linearizable_partial` below is the fallback that was the active obligation while the two
+defects `write-after-close-panics` and `get-after-close-notfound` were open: it needs only the
+structural facts but covers only histories in which `Close` has not been called (`clPc = 0`).
+What it lacks: every call that overlaps or follows `Close`.  Superseded (kind `lemma`) since
+both flags are good; kept because it is what still holds if one of them regresses.
+-/
+/-- Lemma (superseded partial): linearizability of the histories before `Close`, from the
+structural facts alone. -/
 theorem C34_linearizable_partial (c : AllCfg) (hc : c.q.Struct) (p : Params) (s : St)
     (h : Reachable c.q p s) (h0 : s.clPc = 0) :
     Spec.run (Spec.init s.clients.length) s.hist = some (abs s) :=
@@ -131,5 +170,19 @@ example :
       fun s => (Spec.run (Spec.init 3) s.hist == some (abs s), s.hist.length,
         s.hist.contains (.ret 2 (.val v)), Store.read s.store k)) =
     some (true, 9, true, .val [0x77]) := by decide
+
+/-- an applied `Set` stays readable while other keys are written, other clients call, and the
+queue is closed; the schedule is rejected by `runAvoiding` as soon as the same key is applied -/
+example :
+    ((run QCfg.good {} (St.init 2)
+        [.call 0 (.set k v), .call 1 (.set [0x6c] [0x01]), .cstep 0, .cstep 0, .cstep 0, .cstep 0,
+         .cstep 1, .cstep 1, .cstep 1, .cstep 1, .wpop, .wmore, .wapply]).bind fun s1 =>
+      (runAvoiding QCfg.good {} k s1 [.wapply, .wack, .wack, .cstep 0, .cstep 1, .close]).map
+        fun s2 => Store.read s2.store k) = some (.val v) ∧
+    ((run QCfg.good {} (St.init 2)
+        [.call 0 (.set k v), .call 1 (.set k [0x01]), .cstep 0, .cstep 0, .cstep 0, .cstep 0,
+         .cstep 1, .cstep 1, .cstep 1, .cstep 1, .wpop, .wmore, .wapply]).bind fun s1 =>
+      (runAvoiding QCfg.good {} k s1 [.wapply]).map fun s2 => Store.read s2.store k) = none := by
+  decide
 
 end NoKV.Props.C34
